@@ -1,3 +1,5 @@
+//go:build !no_iam
+
 package main
 
 import (
